@@ -233,6 +233,8 @@ CANON = {
     "self_sufficient_child": [rec(), rec(age=24, e1=1, eb=True), rec(age=24, e1=1)],
     "parent_elsewhere": [rec(hh=0), rec(hh=1, age=24, e1=1), rec(hh=1, e2=0)],
     "spouses_apart": [rec(hh=0, spouse=2, gv=True), rec(hh=1, spouse=1, gv=True)],
+    # an unmarried couple; the child of the SECOND partner lives with its retired grandmother in another household
+    "stepchild_elsewhere": [rec(hh=0, partner=2), rec(hh=0, partner=1), rec(hh=1, age=24, e1=2), rec(hh=1, age=70)],
 }
 
 
